@@ -47,6 +47,12 @@ func c07Receivers() []recvKind {
 		{"struct-unexported-zero", tvUnexp("A", tvInt("int", "0"), tvInt("int", "0"))},
 		{"struct-only-unexported", tvUnexp("only", tvInt("int", "0"))},
 		{"struct-unexported-first", tvUnexp("F", tvInt("int", "1"), tvInt("int", "2"), tvStr("v"))},
+		{"struct-embedded-nil-pointer", tvUnexp("E0", tvInt("int", "1"))},
+		{"struct-embedded-pointer", tvUnexp("E", tvStr("ann"), tvInt("int", "2"), tvInt("int", "3"))},
+		{"struct-private-twin-field", tvUnexp("D", tvInt("int", "1"), tvStr("acc"), tvStr("n"))},
+		{"stringer-number", tvSInt("int64", "1500")},
+		{"float32", tvF32(2.7, 2)},
+		{"windows-of-one-array", tvWin([]*TV{tvF64(1), tvF64(2), tvF64(3), tvF64(4)}, [2]int{0, 2}, [2]int{1, 3}, [2]int{2, 4})},
 		{"struct-local-type-1", tvUnexp("R1", tvStr("v"), tvInt("int", "1"))},
 		{"struct-local-type-2", tvUnexp("R2", tvInt("int", "1"), tvInt("int", "2"), tvStr("w"))},
 		{"nil-pointer", tvNilPtr(tvInt("int", "0"))},
@@ -84,7 +90,7 @@ func init() {
 }
 
 func genC07(c *Ctx) {
-	c.Rule = "exhaustive: every function of ListFunctions() x 40 receiver kinds x argument tuples (all of length 0..2 in quick, 0..3 in thorough, over 10 argument kinds (incl. a string that is not a valid regular expression)), receiver under a key and at the root; every function x 5 receivers x 12 whole numbers around 2^31, 2^32, 2^63, 2^64 as literal, as a path to a uint64 / decimal and twice; then random composite queries on random data. distinct = distinct (query skeleton, data shape to depth 2, outcome class); non-trivial = outcome class is not the most common one"
+	c.Rule = "exhaustive: every function of ListFunctions() x 46 receiver kinds x argument tuples (all of length 0..2 in quick, 0..3 in thorough, over 10 argument kinds (incl. a string that is not a valid regular expression)), receiver under a key and at the root; every function x 5 receivers x 12 whole numbers around 2^31, 2^32, 2^63, 2^64 as literal, as a path to a uint64 / decimal and twice; then random composite queries on random data. distinct = distinct (query skeleton, data shape to depth 2, outcome class); non-trivial = outcome class is not the most common one"
 	names := funcNames()
 	recvs := c07Receivers()
 	var tuples [][]string
@@ -163,6 +169,14 @@ func genC07(c *Ctx) {
 	lay := tvMap("str", [][2]any{{hx("f"), tvUnexp("F", tvInt("int", "9"), tvInt("int", "3"), tvStr("kf"))},
 		{hx("one"), tvUnexp("R1", tvStr("first"), tvInt("int", "1"))}, {hx("two"), tvUnexp("R2", tvInt("int", "7"), tvInt("int", "8"), tvStr("second"))},
 		{hx("mix"), tvSlice(1, tvUnexp("R2", tvInt("int", "70"), tvInt("int", "80"), tvStr("m2")), tvUnexp("R1", tvStr("m1"), tvInt("int", "11")))}})
+	// keys that name a field of a struct embedded through a (nil) pointer: not keys of the outer struct
+	emb := tvMap("str", [][2]any{{hx("r"), tvUnexp("E0", tvInt("int", "1"))}, {hx("s"), tvUnexp("E", tvStr("ann"), tvInt("int", "2"), tvInt("int", "3"))},
+		{hx("list"), tvSlice(1, tvUnexp("E0", tvInt("int", "1")), tvUnexp("E", tvStr("bob"), tvInt("int", "2"), tvInt("int", "3")), tvUnexp("E0", tvInt("int", "4")))}})
+	for _, q := range []string{"$.r.CreatedBy", "$.r.createdby", "$.r.Revision", "$.s.CreatedBy", "$.list.CreatedBy", "$.list.Revision", "$.list[@.Revision.Greater(1)]", "$.list[@.Revision?.IsNull()]",
+		`$.list.Select("$.CreatedBy")`, `$.list.Select("$.id")`, "$.r.CreatedBy?.IsNull()", "$.r.EmbInner", "$.r.EmbInner.CreatedBy", "$.r.EmbInner?.CreatedBy", "$.s.EmbInner.CreatedBy", "$.r.IsEmpty()", "$.r.Sum()",
+		"$.r.AsJSON()", `$.r.RemoveKeysByPrefix("C")`, "$.list.id.Sum()", "{$.r.CreatedBy?.IsNull()}"} {
+		c.Do(Case{Q: q, D: emb, Cls: "named-by-property/embedded-pointer", InDomain: true})
+	}
 	for round := 0; round < 2; round++ {
 		for _, q := range []string{"$.f.a", "$.f.k", "$.f.hidden", "$.two.k", "$.one.k", "$.two.k", "$.one.a", "$.two.pad", "$.two.a", "$.one.pad", "$.mix.k", "$.mix.a", "$.mix.pad",
 			"$.mix[@.k.Equal(\"m1\")]", "$.mix.First().k", "$.mix.Last().k", "$.one.IsEmpty()", "$.two.IsEmpty()", "$.f.IsNullOrEmpty()", "$.f.AsJSON()", "$.two.AsJSON()"} {
